@@ -791,3 +791,23 @@ package pdf
 //@   assigns mapof(c.trans)
 //@   ensures (origRef in c.trans) && c.trans[origRef] == newRef
 //@   ensures forall k int :: k != origRef && old(k in c.trans) ==> (k in c.trans) && c.trans[k] == old(c.trans[k])
+
+// ---- seeks on the sink (C19): a failed Seek is never dropped ----
+//@ func (*Writer).scannerFrom (w, pos, canObjStm) (s, err)
+//@   tags C19
+//@   requires w != nil && w.w != nil && impl(w.origW, io.ReadSeeker)
+//@   assigns w.origW.seekfails
+//@   fresh s
+//@   ensures err == nil ==> s != nil && w.origW.seekfails == old(w.origW.seekfails)
+
+// Flush hands buffered bytes to the sinks below: it changes only write logs (assumed).
+//@ func (writeFlusher).Flush (f) (err)
+//@   trusted
+//@   assigns \any.log
+
+//@ func (*Writer).get (w, ref, canObjStm, scalarOnly) (obj, err)
+//@   tags C19
+//@   claims post/
+//@   requires w != nil && w.w != nil && w.w.w != nil
+//@   assigns *
+//@   ensures err == nil && old(!((ref % 4294967296) in w.xref) || w.xref[ref % 4294967296] == nil || w.xref[ref % 4294967296].InStream == 0) ==> w.origW.seekfails == old(w.origW.seekfails)
